@@ -963,6 +963,9 @@ def model_requests(case, obs):
     return reqs
 
 
+_ACT_MSG = ("real state violates the proved bound activation_count_is_live_activators_partial: the activation counter of a "
+            "reference instance exceeds the number of child-list entries held by live flows")
+
 _EXC = {"KeyError": "KeyError", "ValueError": "ValueError", "ColangRuntimeError": "ColangRuntimeError", "RecursionError": "fuel"}
 
 
@@ -986,6 +989,8 @@ def _cmp_record(rec, m):
         if d:
             return d
     st, fu, au, fid, sc = _encode_state(rec["pre"])
+    if rec["op"] == "startflow" and m.get("act_pre") is False:
+        return _ACT_MSG + f" (state before the StartFlow of {rec['info']['fid']} is processed)"
     if rec["op"] == "startflow" and late_starts({"records": [rec]}):
         g = m.get("start")
         return None if g is None or g.get("r") != "ignored" else f"startflow {rec['info']['fid']}: implementation started/re-activated a flow for an ended sender, model {g}"
@@ -1086,6 +1091,12 @@ def compare(case, obs, mouts):
         i += 1
         if m.get("res") != "ok":
             return f"operation replay failed: {m}"
+        # theorem activation_count_is_live_activators_partial: hypothesis (every operation admissible) and conclusion
+        # (`actCountB`: counter of a reference instance <= child-list entries held by live instances) on the real trace
+        if m.get("adm") is False:
+            return f"trace leaves the admissible operations of activation_count_is_live_activators_partial: ops {req['ops']}"
+        if m.get("act_pre") is False or m.get("act_post") is False:
+            return _ACT_MSG
         got_a = sorted(m["actions"], key=lambda x: x["uid"])
         if m["flows"] != want[0] or got_a != want[1]:
             for w, g in zip(want[0], m["flows"]):
@@ -1204,7 +1215,8 @@ def oracle(case, obs):
             while cur["parent"] is not None and cur["parent"] in flows and cur["parent"] not in seen:
                 seen.add(cur["parent"])
                 cur = flows[cur["parent"]]
-                if cur["status"] in _DONE:
+                # the main flow never becomes FINISHED: when it ends it is reset to WAITING (restarted)
+                if cur["status"] in _DONE or (cur["fid"] == "main" and cur["status"] == "WAITING"):
                     excused = any(kinds.get(x["fid"]) == "act" and activators(x["fid"]) for x in chain)
                     if not excused:
                         return (f"step {si}: instance {c['uid']} ({c['status']}) is still running although its ancestor {cur['uid']} "
@@ -1217,7 +1229,7 @@ def oracle(case, obs):
             for a in q["actions"]:
                 held.setdefault(a, []).append(q["uid"])
         for p in step["flows"]:
-            if p["status"] in _DONE:
+            if p["status"] in _DONE or (p["fid"] == "main" and p["status"] == "WAITING"):
                 for a in p["actions"]:
                     if starts.get(a) and a not in finished_rx and a not in held and not stops.get(a):
                         return f"step {si}: action {a} started by {p['uid']} ({p['status']}) is unfinished, not shared with a running flow, and got no Stop"
